@@ -1,6 +1,6 @@
 (* Extract/ExtractC15.v — extraction of the C15 models (table layouts, sfnt tables, CFF operands
    and INDEX) for the correspondence check.  ExtrOcamlBasic only. *)
-From AV Require Import Base.Prelude Gen.ReaderPrims Model.Reader Model.ReaderExt Model.Layout
+From AV Require Import Base.Prelude Gen.ReaderPrims Model.Reader Model.ReaderExt Model.TableLayout
   Gen.TableLayouts Model.Tables Model.Cff.
 Require Import ExtrOcamlBasic.
 Extraction Language OCaml.
